@@ -15,7 +15,7 @@ class Job:
         self.cap_s = cap_s
         self.mem_gb = mem_gb
         self.group = group or name
-        self.owner = owner or self.props[0]   # owner of untagged failures (panic/overflow/bounds/unwind)
+        self.owner = owner or (self.props[0] if self.props else "C01")   # owner of untagged failures (panic/overflow/bounds/unwind)
         self.cls = cls                # A: no havoc inside stubs; B: contract stub (replay needs the native stub hook)
         self.slots = slots
         self.note = note
@@ -83,11 +83,11 @@ add("k_validate_machine", MB, "machine::verif_kani", ["C12"], cap_s=300, group="
 
 # ---------------------------------------------------------------- framework L0 limit predicates
 FW = "framework::verif_kani"
-add("k_below_padding", MB, FW, ["C02", "C07", "C05"], cap_s=300, group="fw_l0_pad", owner="C01",
+add("k_below_padding", MB, FW, [], cap_s=300, group="fw_l0_pad", owner="C01",
     encodes=["Framework::below_limit_padding", "Framework::below_action_limits"],
     bounds="any u64 counters below 2^63, any budgets, fractions any real in [0,1], any state limit")
-add("k_below_padding_own", MB, FW, ["C02"], cap_s=900, group="fw_l0_pad_own", owner="C01")
-add("k_below_blocking", MB, FW, ["C03", "C07", "C05"], cap_s=300, group="fw_l0_block", owner="C01",
+add("k_below_padding_own", MB, FW, [], cap_s=900, group="fw_l0_pad_own", owner="C01")
+add("k_below_blocking", MB, FW, [], cap_s=300, group="fw_l0_block", owner="C01",
     encodes=["Framework::below_limit_blocking", "Framework::below_action_limits"],
     bounds="virtual clock: any u64 instants in any order, any accumulated durations, fractions any real in [0,1]")
 add("k_below_other", MB, FW, ["C07", "C04", "C05"], cap_s=120, group="fw_l0_other", owner="C01",
@@ -122,7 +122,8 @@ EVK = ["NormalRecv", "PaddingRecv", "TunnelRecv", "NormalSent", "PaddingSent", "
 add("l2_m0", MB, FW + "::l2", L2_PROPS, tier="quick", cap_s=300, mem_gb=12, owner="C01", cls="B", group="l2_m0",
     kargs=["--no-assertion-reach-checks"], encodes=L2_ENC,
     bounds="one call, one fully symbolic event (10 kinds, any usize id), ZERO machines, any time")
-for m, tier, cap in ((1, "thorough", 600), (2, "quick", 900), (3, "thorough", 2400)):
+L2_QUICK = {"l2_m2_e3", "l2_m2_e4_i0", "l2_m2_e4_i1", "l2_m2_e4_iu", "l2_m2_e6", "l2_m2_e7", "l2_m2_e8_i1", "l2_m2_e9_iu"}
+for m, tier0, cap in ((1, "thorough", 600), (2, "quick", 900), (3, "thorough", 2400)):
     for k in range(10):
         if k in (4, 8, 9):
             ids = ["i%d" % i for i in range(m)] + ["iu"]
@@ -131,11 +132,34 @@ for m, tier, cap in ((1, "thorough", 600), (2, "quick", 900), (3, "thorough", 24
         for ic in ids:
             name = "l2_m%d_e%d%s" % (m, k, "_" + ic if ic else "")
             idtxt = {"": "any usize id", "iu": "any id that names no machine"}.get(ic, "id = machine " + ic[1:])
+            tier = "quick" if name in L2_QUICK else "thorough"
             add(name, MB, FW + "::l2", L2_PROPS, tier=tier, cap_s=cap, mem_gb=16, owner="C01", cls="B",
                 group=name, kargs=["--no-assertion-reach-checks"], encodes=L2_ENC,
                 bounds="one call reporting one %s event (%s), %d machines, any Inv pre-state, any (also backwards) "
                        "time; every machine step replaced by the transition contract TC (havoc + ghost record) "
                        "that L1 proves for the real step" % (EVK[k], idtxt, m))
+
+
+# ---------------------------------------------------------------- simulator step contracts
+SK = "verif_kani"
+add("s_trigger_update", SIM, SK, ["C17", "C18"], cap_s=600, mem_gb=16, group="s_trigger_update", owner="C19", cls="B",
+    encodes=["maybenot_simulator::trigger_update", "Framework::trigger_events / process_event (real)", "SimQueue::push_sim"],
+    bounds="one side with one machine, one global event, the machine step returns ANY well-formed action "
+           "(kind, flags, timeout and duration up to a day); pending action and internal timer arbitrary; any instants; "
+           "no integration delays")
+add("s_do_scheduled_action", SIM, SK, ["C16", "C17"], cap_s=600, mem_gb=16, group="s_do_scheduled_action", owner="C19",
+    encodes=["maybenot_simulator::do_scheduled_action"],
+    bounds="client with 2 machines, server with 1; every pending action slot arbitrary (none / padding / blocking, any "
+           "flags, any due time); blocking state of both sides arbitrary; target = due time of some pending action")
+add("s_do_internal_timer", SIM, SK, ["C18"], cap_s=300, mem_gb=12, group="s_do_internal_timer", owner="C19",
+    encodes=["maybenot_simulator::do_internal_timer"],
+    bounds="client with 2 machines, server with 1; every internal timer arbitrary; target = expiry of some timer")
+add("s_peek_action", SIM, SK, ["C17"], tier="thorough", cap_s=1200, mem_gb=12, group="s_peek_a", owner="C19",
+    encodes=["queue_peek::peek_scheduled_action"], bounds="2 + 1 pending-action slots, any instants")
+add("s_peek_internal", SIM, SK, ["C18"], tier="thorough", cap_s=900, mem_gb=12, group="s_peek_i", owner="C19",
+    encodes=["queue_peek::peek_scheduled_internal_timer"], bounds="2 + 1 internal-timer slots, any instants")
+add("s_peek_blocked", SIM, SK, ["C16"], cap_s=300, mem_gb=12, group="s_peek", owner="C19",
+    encodes=["queue_peek::peek_blocked_exp"], bounds="both sides' blocking expiry arbitrary (at or after now)")
 
 
 def jobs_for(prop, tier):
